@@ -28,4 +28,16 @@ theorem poolStep_target {σ O R : Type} (step : σ → O → σ × R) (dflt : σ
   unfold poolStep
   simp [Array.getD_eq_getD_getElem?, Array.getElem?_setIfInBounds_self_of_lt h]
 
+theorem poolStep_size {σ O R : Type} (step : σ → O → σ × R) (dflt : σ) (pool : Array σ) (i : Nat) (op : O) :
+    (poolStep step dflt pool i op).1.size = pool.size := by
+  unfold poolStep; simp
+
+/-- a history over the pool: every operation names its slot -/
+def poolRun {σ O R : Type} (step : σ → O → σ × R) (dflt : σ) : Array σ → List (Nat × O) → Array σ × List R
+  | pool, [] => (pool, [])
+  | pool, (i, op) :: rest =>
+    let r := poolStep step dflt pool i op
+    let rr := poolRun step dflt r.1 rest
+    (rr.1, r.2 :: rr.2)
+
 end HMap
